@@ -421,12 +421,22 @@ Proof.
   - rewrite inject_world. exact HI.
 Qed.
 
+End Steps.
+
+(* The application's membership map is read at the start of every API call (computeMembership(s.Membership()) in KeyGen and
+   Sign) and may differ from one call to the next: a reachable state is reached by steps that each run under SOME map.
+   (The model reads the map at every step of a session; the code reads it once per session. The two agree as long as the
+   application does not change its map while a session is running - which is how the harness drives it; a change in
+   mid-session is outside this model.) *)
 Inductive reachable : world -> Prop :=
 | reach0 : reachable world0
-| reach_step w e : reachable w -> fresh w e -> reachable (fst (step mm w e)).
+| reach_step mm w e : reachable w -> fresh w e -> reachable (fst (step mm w e)).
 
 Lemma reachable_inv w : reachable w -> WInv w.
 Proof. induction 1; [apply WInv0|apply step_inv; assumption]. Qed.
+
+Section Theorems.
+Variable mm : mmap.
 
 (* ------------------------------- C12 ------------------------------- *)
 
@@ -596,4 +606,4 @@ Proof.
   destruct (p_sign (s_plan s) && negb (p_share (s_plan s))); cbn [snd]; [intros []|].
   destruct (p_initgate (s_plan s)); cbn [snd o_inits]; exact H.
 Qed.
-End Steps.
+End Theorems.
